@@ -141,9 +141,10 @@ func newMachine() *finitestate.Machine {
 // ---------------------------------------------------------------- script child
 
 type subT struct {
-	ch     <-chan string
-	cancel context.CancelFunc
-	closed bool
+	ch        <-chan string
+	cancel    context.CancelFunc
+	closed    bool
+	cancelled bool
 }
 
 func scriptChild(sc string) int {
@@ -269,8 +270,9 @@ func scriptChild(sc string) int {
 			snap()
 		case strings.HasPrefix(a, "cancel:"):
 			i, _ := strconv.Atoi(a[7:])
-			if i < len(subs) {
+			if i < len(subs) && !subs[i].cancelled {
 				rec.Emit("CA:%d", i)
+				subs[i].cancelled = true
 				subs[i].cancel()
 			}
 			snap()
@@ -288,8 +290,11 @@ out:
 	// teardown: let a pending call finish (at most the 5 s broadcast timer), cancel everything, final dump
 	reap(7 * time.Second)
 	for i, s := range subs {
-		rec.Emit("CA:%d", i)
-		s.cancel()
+		if !s.cancelled {
+			rec.Emit("CA:%d", i)
+			s.cancelled = true
+			s.cancel()
+		}
 	}
 	quiesce(500 * time.Millisecond)
 	snap()
